@@ -510,6 +510,10 @@ type CustomCfg struct {
 	Restart    bool              // on success return the session's connection (stream restart)
 	Refuse     bool              // receiver role: answer <fail/> and return an error
 	FailMask   xmpp.SessionState // returned together with the error
+	// FailWithRW: a refused negotiation returns the session's connection
+	// together with its error (a layering feature that had built its layer
+	// before it failed).
+	FailWithRW bool
 	// ListErr makes List return ErrList: "clean" before writing anything,
 	// "partial" after having written the start tag of its element.
 	ListErr string
@@ -604,6 +608,12 @@ func Custom(c CustomCfg) xmpp.StreamFeature {
 				}
 				return c.OKMask, nil, nil
 			}
+			refused := func() (xmpp.SessionState, io.ReadWriter, error) {
+				if c.FailWithRW {
+					return c.FailMask, s.Conn(), ErrRefused
+				}
+				return c.FailMask, nil, ErrRefused
+			}
 			if s.State()&xmpp.Received != 0 {
 				name, err := get()
 				if err != nil {
@@ -616,7 +626,7 @@ func Custom(c CustomCfg) xmpp.StreamFeature {
 					if err := put("fail"); err != nil {
 						return c.FailMask, nil, err
 					}
-					return c.FailMask, nil, ErrRefused
+					return refused()
 				}
 				if err := put("ok"); err != nil {
 					return c.FailMask, nil, err
@@ -634,7 +644,7 @@ func Custom(c CustomCfg) xmpp.StreamFeature {
 			case "ok":
 				return ok()
 			case "fail":
-				return c.FailMask, nil, ErrRefused
+				return refused()
 			}
 			return c.FailMask, nil, fmt.Errorf("hspeer: unexpected answer %q", name)
 		},
